@@ -33,7 +33,9 @@ import (
 	"time"
 
 	"google.golang.org/grpc"
+	"google.golang.org/grpc/codes"
 	"google.golang.org/grpc/credentials"
+	"google.golang.org/grpc/status"
 	"google.golang.org/protobuf/encoding/prototext"
 	"google.golang.org/protobuf/proto"
 
@@ -168,6 +170,8 @@ type scriptT struct {
 	responses []*gpb.SubscribeResponse
 	mdl       *tmodel
 	mdlAlt    *tmodel // pathorigin mode: the state if path-level origins were ignored (known finding D19)
+	pre       [][]*gpb.SubscribeResponse // earlier sessions: streamed, then the stream fails (reconnect mode)
+	structOf  map[string]storedLeaf      // index key -> origin and structured elements of the leaf (for keyed CLI queries)
 	nonce     string
 	nonceKey  []string
 	sawReq    *gpb.SubscribeRequest
@@ -178,10 +182,15 @@ type scriptT struct {
 
 const defaultOrigin = "openconfig"
 
+type storedLeaf struct {
+	origin string
+	es     []pelem
+}
+
 // genScript generates the response stream of one target and its model.
 // pathOrigin: put the origin into update paths instead of the prefix (D19's input class).
-func genScript(rng *rand.Rand, name string, pathOrigin bool) *scriptT {
-	s := &scriptT{name: name, mdl: newTModel(), mdlAlt: newTModel()}
+func genScript(rng *rand.Rand, name string, pathOrigin bool, tsBase int64) *scriptT {
+	s := &scriptT{name: name, mdl: newTModel(), mdlAlt: newTModel(), structOf: map[string]storedLeaf{}}
 	conts := []string{"c0", "c1", "c2", "interfaces", "state"}
 	leafs := []string{"l0", "l1", "l2", "in-octets", "oper-status", "name"}
 	keyvals := []string{"k1v", "eth0", "10", "v 2"}
@@ -202,12 +211,9 @@ func genScript(rng *rand.Rand, name string, pathOrigin bool) *scriptT {
 		return es
 	}
 	origins := []string{"", defaultOrigin, "custom"}
-	ts := int64(1_600_000_000_000_000_000)
+	ts := tsBase
 	nLeaves := 5 + rng.Intn(36)
-	type stored struct {
-		origin string
-		es     []pelem
-	}
+	type stored = storedLeaf
 	var known []stored
 	effOrigin := func(o string) string {
 		if o == "" {
@@ -282,6 +288,7 @@ func genScript(rng *rand.Rand, name string, pathOrigin bool) *scriptT {
 				}
 				n.Update = append(n.Update, &gpb.Update{Path: up, Val: v.TV})
 				s.mdl.set(append([]string{name, effOrigin(origin)}, indexOf(es)...), v.Go)
+				s.structOf[model.Key(append([]string{name, effOrigin(origin)}, indexOf(es)...))] = storedLeaf{effOrigin(origin), es}
 				s.mdlAlt.set(append([]string{name, defaultOrigin}, indexOf(es)...), v.Go)
 				known = append(known, stored{origin, es})
 			}
@@ -320,8 +327,18 @@ func (t *targetServer) Subscribe(stream gpb.GNMI_SubscribeServer) error {
 	}
 	t.s.mu.Lock()
 	t.s.sawReq = req
+	idx := t.s.sessions
 	t.s.sessions++
 	t.s.mu.Unlock()
+	if idx < len(t.s.pre) {
+		// An earlier session: stream it, then the stream breaks.
+		for _, r := range t.s.pre[idx] {
+			if err := stream.Send(proto.Clone(r).(*gpb.SubscribeResponse)); err != nil {
+				return err
+			}
+		}
+		return status.Error(codes.Unavailable, "scripted stream failure")
+	}
 	for _, r := range t.s.responses {
 		if err := stream.Send(proto.Clone(r).(*gpb.SubscribeResponse)); err != nil {
 			return err
@@ -502,7 +519,20 @@ func runScenario(r *vlib.Run, mode string, trial int, rng *rand.Rand) {
 	cfg.Request["shared"] = mkReq(0)
 	for i := 0; i < nT; i++ {
 		name := fmt.Sprintf("dev%d", i)
-		s := genScript(rng, name, pathOrigin)
+		// Timestamps of a target whose clock is right, or runs far ahead of the collector's.
+		tsBase := []int64{1_600_000_000_000_000_000, 4_102_444_800_000_000_000}[rng.Intn(2)]
+		s := genScript(rng, name, pathOrigin, tsBase)
+		if mode == "reconnect" {
+			// The stream breaks once (or twice) and is re-established: the final
+			// state is what the LAST session streamed.
+			for k := 0; k < 1+rng.Intn(2); k++ {
+				s0 := genScript(rng, name, false, tsBase)
+				s.pre = append(s.pre, s0.responses)
+				for key, vs := range s0.mdl.ever {
+					s.mdl.ever[key] = append(s.mdl.ever[key], vs...)
+				}
+			}
+		}
 		sc.scripts = append(sc.scripts, s)
 		lis, err := net.Listen("tcp", "127.0.0.1:0")
 		if err != nil {
@@ -848,8 +878,69 @@ func cliChecks(r *vlib.Run, mode string, trial int, rng *rand.Rand, sc *scenario
 	pool := [][]string{{"*"}, {defaultOrigin}, {"custom"}, {defaultOrigin, "c0"}, {"*", "c1"}, {defaultOrigin, "*", "l0"}, {"custom", "interfaces"}, {defaultOrigin, "zzsentinel"}}
 	nq := 1 + rng.Intn(2)
 	var queries [][]string
+	var qflags []string
+	var qpaths []*gpb.Path
 	for len(queries) < nq {
-		queries = append(queries, pool[rng.Intn(len(pool))])
+		q := pool[rng.Intn(len(pool))]
+		queries = append(queries, q)
+		qflags = append(qflags, strings.Join(q, "/"))
+		p := &gpb.Path{}
+		for _, e := range q {
+			p.Elem = append(p.Elem, &gpb.PathElem{Name: e})
+		}
+		qpaths = append(qpaths, p)
+	}
+	// A keyed query for a stored keyed leaf (or one of its containers): the
+	// index of name[k=v] is the name followed by the key values.
+	var keyed []storedLeaf
+	for k := range s.mdl.cur {
+		if sl, ok := s.structOf[k]; ok {
+			hasKey, plainVals := false, true
+			for _, e := range sl.es {
+				for _, v := range e.Keys {
+					hasKey = true
+					if strings.ContainsAny(v, " ,") {
+						plainVals = false
+					}
+				}
+			}
+			if hasKey && plainVals {
+				keyed = append(keyed, sl)
+			}
+		}
+	}
+	sort.Slice(keyed, func(i, j int) bool { return fmt.Sprint(keyed[i]) < fmt.Sprint(keyed[j]) })
+	if len(keyed) > 0 {
+		sl := keyed[rng.Intn(len(keyed))]
+		cut := 1 + rng.Intn(len(sl.es))
+		for cut < len(sl.es) && len(sl.es[cut-1].Keys) == 0 && rng.Intn(2) == 0 {
+			cut++
+		}
+		es := sl.es[:cut]
+		queries = append(queries, append([]string{sl.origin}, indexOf(es)...))
+		parts := []string{sl.origin}
+		p := &gpb.Path{Elem: []*gpb.PathElem{{Name: sl.origin}}}
+		for _, e := range es {
+			str := e.Name
+			var ks []string
+			for k := range e.Keys {
+				ks = append(ks, k)
+			}
+			sort.Strings(ks)
+			pe := &gpb.PathElem{Name: e.Name}
+			for _, k := range ks {
+				str += fmt.Sprintf("[%s=%s]", k, e.Keys[k])
+				if pe.Key == nil {
+					pe.Key = map[string]string{}
+				}
+				pe.Key[k] = e.Keys[k]
+			}
+			parts = append(parts, str)
+			p.Elem = append(p.Elem, pe)
+		}
+		qflags = append(qflags, strings.Join(parts, "/"))
+		qpaths = append(qpaths, p)
+		r.Count("cli_keyed_queries", 1)
 	}
 	want := map[string]interface{}{}
 	for k, v := range s.mdl.cur {
@@ -860,14 +951,9 @@ func cliChecks(r *vlib.Run, mode string, trial int, rng *rand.Rand, sc *scenario
 			}
 		}
 	}
-	var qstrs []string
+	qstrs := qflags
 	sl := &gpb.SubscriptionList{Prefix: &gpb.Path{Target: s.name}, Mode: gpb.SubscriptionList_ONCE}
-	for _, q := range queries {
-		qstrs = append(qstrs, strings.Join(q, "/"))
-		p := &gpb.Path{}
-		for _, e := range q {
-			p.Elem = append(p.Elem, &gpb.PathElem{Name: e})
-		}
+	for _, p := range qpaths {
 		sl.Subscription = append(sl.Subscription, &gpb.Subscription{Path: p})
 	}
 	ptxt := prototext.MarshalOptions{Multiline: false}.Format(&gpb.SubscribeRequest{Request: &gpb.SubscribeRequest_Subscribe{Subscribe: sl}})
@@ -1017,6 +1103,7 @@ func prepare(tier, work string) error {
 func body(r *vlib.Run) {
 	r.ForTrials("relay", r.N(24, 800), func(trial int, rng *rand.Rand) { runScenario(r, "relay", trial, rng) })
 	r.ForTrials("pathorigin", r.N(4, 40), func(trial int, rng *rand.Rand) { runScenario(r, "pathorigin", trial, rng) })
+	r.ForTrials("reconnect", r.N(8, 120), func(trial int, rng *rand.Rand) { runScenario(r, "reconnect", trial, rng) })
 }
 
 func main() {
